@@ -20,8 +20,8 @@ pub fn def() -> PropDef {
     panic_policy: PanicPolicy::Count,
     rule: "random source trees incl. multi-byte text and invalid UTF-8 buffers; the five views are compared with each other and with the byte/text model of the spec; to_writer is run against a writer that accepts k bytes (also in short writes) and then fails, for every k <= len (thorough) / <=12 sampled k (quick); non-trivial = a composite tree with >= 2 leaves, non-empty text and >= 1 injected writer fault; distinct = spec fingerprint",
     cases: |t| match t {
-      Tier::Quick => 60_000,
-      Tier::Thorough => 600_000,
+      Tier::Quick => 150_000,
+      Tier::Thorough => 1_500_000,
     },
   }
 }
